@@ -111,7 +111,8 @@ class LadderMaker(NetlistHelper):
         n1 = self._node           # 1
 
         if not isinstance(net, (Ser, Par)):
-            return self._net_add(net, n1, n2, dir='down')
+            self._net_add(net, n1, n2, dir='down')
+            return self.s
 
         self._port_add(n1, n2, dir='down')
 
